@@ -91,6 +91,7 @@ type Result struct {
 	Choices     []uint32          `json:"choices,omitempty"`
 	Mismatch    bool              `json:"hash_mismatch,omitempty"`
 	Interleaved bool              `json:"interleaved,omitempty"`
+	Points      []string          `json:"points,omitempty"`
 	scenario    string
 }
 
@@ -270,6 +271,7 @@ type agg struct {
 	samples     []json.RawMessage
 	perScenario map[string]int
 	panicClasses map[string]int
+	points      map[string]bool
 	hungSample  string
 }
 
@@ -295,6 +297,9 @@ func (a *agg) add(r Result) {
 	}
 	if nontrivial && r.Hash != "" {
 		a.hashes[r.scenario+":"+r.Hash] = true
+	}
+	for _, p := range r.Points {
+		a.points[r.scenario+":"+p] = true
 	}
 	if r.Budget {
 		a.budget++
@@ -384,7 +389,7 @@ func main() {
 	defer cleanup()
 	fmt.Printf("built harness against instrumented /repo in %.1fs\n", time.Since(start).Seconds())
 
-	a := &agg{hashes: map[string]bool{}, faults: map[string]int{}, probes: map[string]int{}, perScenario: map[string]int{}, panicClasses: map[string]int{}}
+	a := &agg{hashes: map[string]bool{}, faults: map[string]int{}, probes: map[string]int{}, perScenario: map[string]int{}, panicClasses: map[string]int{}, points: map[string]bool{}}
 	searchStart := time.Now()
 	for _, sb := range ps.Scenarios {
 		secs := sb.QuickSec
@@ -640,6 +645,7 @@ func writeEvidence(ps propSpec, tier string, seed uint64, a *agg, wall, searchWa
 			"determinism_rechecks":        a.rechecked,
 			"determinism_rechecks_failed": a.mismatch,
 			"runs_per_scenario":   a.perScenario,
+			"distinct_fault_points_fired": len(a.points),
 			"known_findings_seen": knownSeen,
 			"reported":            reported,
 			"exhaustive":          false,
